@@ -28,31 +28,31 @@ type bmcEdge struct {
 }
 
 type bmcTmpl struct {
-	name   string
-	nodes  int // node ids 1..nodes (0 = inactive)
-	edges  []*bmcEdge
-	vars   map[string]bool // symbols private to an instance (renamed per instance)
-	term   map[int]string  // terminal node kind: exit fail panic cut
-	msg    map[int]string
-	out    map[int][]*bmcEdge
-	depth  int
+	name      string
+	nodes     int // node ids 1..nodes (0 = inactive)
+	edges     []*bmcEdge
+	vars      map[string]bool // symbols private to an instance (renamed per instance)
+	term      map[int]string  // terminal node kind: exit fail panic cut
+	msg       map[int]string
+	out       map[int][]*bmcEdge
+	depth     int
 	treeNodes int
-	instN  int
-	first  int // index of the first instance
+	instN     int
+	first     int // index of the first instance
 }
 
 type BMC struct {
-	tr     *TreeResult
-	tmpls  []*bmcTmpl
-	byName map[string]*bmcTmpl
-	insts  []int // instance -> template index
+	tr                         *TreeResult
+	tmpls                      []*bmcTmpl
+	byName                     map[string]*bmcTmpl
+	insts                      []int // instance -> template index
 	chans, mutexes, wgs, cells []string
-	K      int
-	Stats  map[string]interface{}
-	NarrowOff bool
-	Trace  []string
-	flagDescr map[string]string
-	narrow    bool
+	K                          int
+	Stats                      map[string]interface{}
+	NarrowOff                  bool
+	Trace                      []string
+	flagDescr                  map[string]string
+	narrow                     bool
 }
 
 func evKey(e Event) string {
@@ -78,7 +78,7 @@ func buildTemplate(t *Template) *bmcTmpl {
 		kids  map[string]*tnode
 		edges []*bmcEdge // out-edges in creation order
 		kid   []*tnode
-		exit  bool // the thread ends here (no step of its own)
+		exit  bool   // the thread ends here (no step of its own)
 		term  string // terminal kind of the event leading here (fail/panic/cut + message)
 	}
 	root := &tnode{id: 1, kids: map[string]*tnode{}}
